@@ -388,7 +388,7 @@ def floors(st, tier):
 def dense_requests(cfg, rng, n, st):
     """dense digit-count pass: the numerals of MAX, MAX+1, MIN, MIN-1 and of the largest power of the radix in every string radix (with and
     without leading zeros), and the digit slices of the all-ones pattern (+1) in a few slice radices"""
-    for r in range(2, 37):
+    for r in (range(2, 37) if cfg.bits <= 1024 else (2, 3, 7, 10, 16, 36)):
         cap = capacity(cfg, r)
         for v in (cfg.max, cfg.max + 1, cfg.min, cfg.min - 1, r ** (cap - 1), r ** (cap - 1) - 1):
             s = (b'-' if v < 0 else b'') + numeral(v, r)
